@@ -8,7 +8,7 @@ Asynkit/Lemmas/C13{Basic,Frame,Step}.lean, the model in Asynkit/Model/Lock.lean.
 not scripted in the model: after `Ev.resume` the running task may perform any enabled operation),
 every schedule (any runnable task may be resumed) and every placement of `cancel i`,
 `throw i e`, `interrupt i e` (any `e`) - while waiting, woken-not-run, holding, or anywhere else.
-The model is PriorityLock with fixes/C13-double-wakeup.patch applied; on the unrepaired
+The model is PriorityLock with fixes/C13-double-wakeup.patch (and the two C12 patches) applied; on the unrepaired
 `_wake_up_first` `woken_waiter_finds_lock_free` is false (corpus/C13/double-wakeup.json).
 -/
 import Asynkit.Lemmas.C13Step
@@ -163,7 +163,9 @@ theorem progress_partial {s : State} (h : Reachable s) {i k : Nat}
     by_cases hx : resumeExc (s.tasks i) = true
     · simp only [hx, if_true]
       split
-      · simpa using hlt
+      · split
+        · rw [propT_waiters_length]; simpa using hlt
+        · simpa using hlt
       · rw [wakeUpFirst_waiters_length]; simpa using hlt
     · simp only [hx]
       simp [State.takeLock]
